@@ -474,6 +474,18 @@ func cmdXform(args []string) int {
 			add(t, fmt.Sprintf("contlead:%d", v), []int{10000, 65536, 4096}[(v+ti)%3], -1, []string{"NONE", "FPAQ"}[ti%2])
 		}
 	}
+	// ... or end with a damaged character v bytes before the end
+	for v := 1; v <= 9; v++ {
+		for ti, t := range []string{"UTF", "TEXT+UTF", "UTF+LZ"} {
+			// (a dozen consecutive sizes: where the generator cuts its last regular character varies with the size)
+			for d := 0; d < 12; d++ {
+				if ti > 0 && d%4 != 0 {
+					continue
+				}
+				add(t, fmt.Sprintf("taildmg:%d", v), []int{8020, 65530, 4090}[(v+ti)%3]+d, -1, []string{"NONE", "FPAQ"}[ti%2])
+			}
+		}
+	}
 	// random single transforms and chains (sequence level)
 	for i := 0; i < *n; i++ {
 		t := pick(rnd, transformNames)
